@@ -47,21 +47,21 @@ Qed.
    sonority profile, the prosodic string and the prosodic weights all exist and have exactly one
    element per token (the contract the aligners rely on when they index them by token position) *)
 Theorem shipped_pipeline_lengths :
-  forall tbl (is_stress is_diac : char -> bool) (toks cls : list token),
+  forall tbl (is_stress is_diac : char -> bool) (cldf : bool) (toks cls : list token),
     In tbl sc_art_models ->
-    tokens2class (assoc_find tbl) is_stress is_diac false toks = Ok cls ->
+    tokens2class (assoc_find tbl) is_stress is_diac cldf toks = Ok cls ->
     exists l s ws,
-      sonority (assoc_find tbl) is_stress is_diac false toks = Ok l /\
-      prosodic_string_tokens (assoc_find tbl) is_stress is_diac OTrue toks = Ok s /\
+      sonority (assoc_find tbl) is_stress is_diac cldf toks = Ok l /\
+      prosodic_string_tokens (assoc_find tbl) is_stress is_diac cldf OTrue toks = Ok s /\
       prosodic_weights [] s = Ok ws /\
       length cls = length toks /\ length l = length toks /\ length s = length toks /\
       length ws = length toks.
 Proof.
-  intros tbl st di toks cls H E.
-  destruct (shipped_art_sonority_total tbl st di false toks cls H E) as (l & El & Ll).
+  intros tbl st di cldf toks cls H E.
+  destruct (shipped_art_sonority_total tbl st di cldf toks cls H E) as (l & El & Ll).
   destruct (prosodic_weights_of_prostring l) as (s & ws & Es & Ew & Lw).
   exists l, s, ws. split; [exact El|].
-  assert (Et : prosodic_string_tokens (assoc_find tbl) st di OTrue toks = Ok s).
+  assert (Et : prosodic_string_tokens (assoc_find tbl) st di cldf OTrue toks = Ok s).
   { unfold prosodic_string_tokens. destruct toks as [|t r].
     - cbn [length] in Ll. destruct l; [|discriminate]. cbn in Es. exact Es.
     - rewrite El. exact Es. }
